@@ -262,7 +262,9 @@ def run_tri(case, drv):
     tags = dict(h=h, n=n)
     try:
         if h == "order":
-            res = mn.triangulate(order=[pn[v] for v in case["order"]], inplace=case["inplace"])
+            ol = [pn[v] for v in case["order"]]
+            # the elimination order as list / tuple / generator / one-shot iterator / reversed view
+            res = mn.triangulate(order=[ol, tuple(ol), (x for x in ol), iter(ol), reversed(ol[::-1])][(n + len(orig)) % 5], inplace=case["inplace"])
         else:
             res = mn.triangulate(heuristic=h, inplace=case["inplace"])
         if res is None:
